@@ -1,7 +1,7 @@
 #!/bin/sh
-# usage: build.sh <out-binary> <overlay.json>   (run in /verif/h09)
+# usage: build.sh <out-binary> <overlay.json> [-modfile=...]   (run in /verif/h09)
 G="-d=libfuzzer"
-exec go test -c -vet=off -tags "libfuzzer verif" -overlay "$2" \
+exec go test -c -vet=off $3 -tags "libfuzzer verif" -overlay "$2" \
   -gcflags=github.com/ja7ad/otp/...=$G -gcflags=bytes=$G -gcflags=strings=$G -gcflags=slices=$G \
   -gcflags=reflect=$G -gcflags=crypto/subtle=$G -gcflags=crypto/internal/fips140/subtle=$G \
   -o "$1" .
